@@ -8,6 +8,7 @@ import (
 	"io"
 	"math/rand"
 	"net/http"
+	"net/url"
 	"reflect"
 	"runtime/debug"
 	"strings"
@@ -129,7 +130,8 @@ func RunWire(reg Registry, rec *Recorder, g Group) {
 		}
 		return []reflect.Value{reflect.ValueOf(resp), errV}
 	})
-	client := newClient.Call([]reflect.Value{reflect.ValueOf("http://example.test" + g.Base), doer})[0]
+	// (the base URL a caller hands over is a URL: a base path with characters that need escaping is given escaped)
+	client := newClient.Call([]reflect.Value{reflect.ValueOf("http://example.test" + (&url.URL{Path: g.Base}).EscapedPath()), doer})[0]
 	if g.Local {
 		// the pairing the generated package itself offers: API.LocalClient() (no recording transport in between)
 		m := reflect.ValueOf(api).MethodByName("LocalClient")
